@@ -20,7 +20,7 @@ CONSTANTS NS, RECS, MaxOrders
 GenParams == (1 :> [n |-> 0, recs |-> {}, acts |-> {}, fatalAt |-> {}])
 
 AllParams == { [n |-> n, recs |-> recs, acts |-> acts, fatalAt |-> {}] :
-                 n \in NS, recs \in RECS, acts \in SUBSET (1..4) }
+                 n \in NS, recs \in RECS, acts \in SUBSET (UNION {1..m : m \in NS}) }
 
 Admissible(p) == /\ p.recs \subseteq 1..p.n
                  /\ p.acts \subseteq (1..p.n) \ p.recs
